@@ -154,12 +154,12 @@ func scenC04(w *vsim.World, spec *vsim.Spec) {
 						w.Violation("c04/trash-while-trashing-disabled", "BlobTrash is off but %s left volume %s (last step: %+v)", base[:8], vs.name, last)
 						return
 					}
-					if age < ttl && stalledWriter[base] {
-						w.ViolationSig("c04/block-younger-than-ttl-trashed", "writer-stalled-a-whole-ttl-renames-under-trash", "volume %s: %s was trashed at age %s < TTL %s: a PUT of this block that had been in flight for longer than the TTL (stalled between its existence check and its rename) replaced the old copy while Trash() held the flock on it and had already judged it old; Trash() then renamed the fresh copy (last step: %+v)", vs.name, base[:8], age, ttl, last)
-						return
-					}
 					if age < ttl && last != nil && longWaitForFlock[last.task] {
 						w.ViolationSig("c04/block-younger-than-ttl-trashed", "trash-resumed-after-a-whole-ttl-holds-the-lock-of-a-replaced-file", "volume %s: %s was trashed at age %s < TTL %s: the trashing request had opened the block, then waited for its flock for a whole TTL; meanwhile a writer replaced the file, so the lock it finally got was on the unlinked old file, a TOUCH/PUT of the new file was not excluded, and the request renamed the freshly touched file (last step: %+v)", vs.name, base[:8], age, ttl, last)
+						return
+					}
+					if age < ttl && stalledWriter[base] {
+						w.ViolationSig("c04/block-younger-than-ttl-trashed", "writer-stalled-a-whole-ttl-renames-under-trash", "volume %s: %s was trashed at age %s < TTL %s: a PUT of this block that had been in flight for longer than the TTL (stalled between its existence check and its rename) replaced the old copy while Trash() held the flock on it and had already judged it old; Trash() then renamed the fresh copy (last step: %+v)", vs.name, base[:8], age, ttl, last)
 						return
 					}
 					if age < ttl {
